@@ -205,6 +205,15 @@ Proof.
       rewrite Z2N.id by lia. unfold py_len. replace (sr_step r <? 0) with true by lia. reflexivity.
 Qed.
 
+Corollary index_range_python_slice r n g :
+  sr_index_range r n = Ok g ->
+  ir_iter g = py_indices n (sr_start r) (sr_end r) (sr_step r)
+  /\ ir_steps g = lenN (py_indices n (sr_start r) (sr_end r) (sr_step r)).
+Proof.
+  intros H. destruct (index_range_sound r n g H) as [H1 H2]. split; [exact H1|].
+  rewrite H2, py_indices_eq. unfold lenN. rewrite map_length, range_length. now rewrite N2Nat.id.
+Qed.
+
 (* no panic for a non-zero step on a dimension that fits isize *)
 Theorem index_range_ok r n :
   sr_step r <> 0 -> Z.of_N n <= isize_max -> exists g, sr_index_range r n = Ok g.
